@@ -5,14 +5,15 @@ package sm
 
 import (
 	"bytes"
-	"encoding/xml"
-	"io"
 	"encoding/json"
+	"encoding/xml"
 	"fmt"
+	"io"
 	"os"
 	"runtime"
 	"strings"
 	"sync"
+	"time"
 
 	"github.com/fiorix/go-diameter/v4/diam/datatype"
 	"github.com/fiorix/go-diameter/v4/diam/dict"
@@ -88,7 +89,7 @@ func vPick32(tag string, vals ...uint32) uint32 {
 	}
 	panic(zzDiverged{"vPick32 value not in set"})
 }
-func vBool(tag string) bool  { return zzNext(tag) == 1 }
+func vBool(tag string) bool { return zzNext(tag) == 1 }
 func vLen(tag string, lo, hi int) int {
 	v := int(zzNext(tag))
 	if v < lo || v > hi {
@@ -97,7 +98,7 @@ func vLen(tag string, lo, hi int) int {
 	return v
 }
 func vInt(tag string, lo, hi int) int { return vLen(tag, lo, hi) }
-func vChoice(tag string, n int) int  { return vLen(tag, 0, n-1) }
+func vChoice(tag string, n int) int   { return vLen(tag, 0, n-1) }
 func vBytes(tag string, n int) []byte {
 	b := make([]byte, n)
 	for i := range b {
@@ -115,7 +116,7 @@ func vAssert(c bool, label string) {
 		panic(zzAssertFail{label})
 	}
 }
-func vNoPanic()        {}
+func vNoPanic()         {}
 func vReach(tag string) {}
 func vKnown(id string, c bool) bool {
 	for _, k := range zzVec.Known {
@@ -147,16 +148,16 @@ func vAllocCheck() {
 		panic(zzAssertFail{fmt.Sprintf("memory bounded by bytes supplied, not by claimed length (allocated %d, limit %d)", vAllocBytes(), zzAllocLim)})
 	}
 }
-func vMaxDepth() int      { return 0 }
-func vFmtPanics() int     { return 0 }
+func vMaxDepth() int       { return 0 }
+func vFmtPanics() int      { return 0 }
 func vPoolMayDrop(on bool) {}
-func vYield()             { runtime.Gosched() }
-func vQuiesce()           { zzQuiesce() }
-func vAdvance() bool      { return zzAdvance() }
-func vNow() int64         { return zzNow() }
+func vYield()              { runtime.Gosched() }
+func vQuiesce()            { zzQuiesce() }
+func vAdvance() bool       { return zzAdvance() }
+func vNow() int64          { return zzNow() }
 func vAutoAdvance(on bool) {}
-func vPendingTimers() int { return 0 }
-func vLeaks() int         { return 0 }
+func vPendingTimers() int  { return 0 }
+func vLeaks() int          { return 0 }
 func vHeld(mu *sync.Mutex) bool {
 	if mu.TryLock() {
 		mu.Unlock()
@@ -242,9 +243,20 @@ func vAbstractDict() *dict.Parser {
 }
 
 // scheduler shims for native replay (sequential harnesses never call these)
-func zzQuiesce()      { for i := 0; i < 200; i++ { runtime.Gosched() } }
-func zzAdvance() bool { return false }
-func zzNow() int64    { return 0 }
+// natively: quiescence is approximated by a short sleep, a logical-clock advance by sleeping one
+// tick (harnesses use intervals that are multiples of zzTick)
+const zzTick = 120 * time.Millisecond
+
+var zzStart = time.Now()
+
+func zzQuiesce() {
+	for i := 0; i < 50; i++ {
+		runtime.Gosched()
+	}
+	time.Sleep(8 * time.Millisecond)
+}
+func zzAdvance() bool { time.Sleep(zzTick + zzTick/4); return true }
+func zzNow() int64    { return int64(time.Since(zzStart)) }
 
 // vDictFile natively: the File is written out as dictionary XML and parsed by the real loader.
 func vDictFile(f *dict.File) io.Reader {
